@@ -6,10 +6,11 @@
       kind, clock, t, class, pinned, fixed, dev]
 
    fn     0 dispatch_time  1 dispatch_walltime(&ts)  2 dispatch_walltime(NULL)  3 _dispatch_timeout
+          4 _dispatch_time_nanoseconds_since_epoch
    kind   reference verdict: 0 exact  1 forever  2 any elapsed time on `clock`
-          (fn = 3: 1 if `base` has already elapsed, else 0)
+          (fn = 3, 4: 1 if `base` has already elapsed, else 0)
    clock  0 uptime  1 monotonic  2 wall              t  the expected result (kind 0/1)
-          (fn = 3: the reference wait, 2^W for "for ever")
+          (fn = 3, 4: the reference wait, 2^W for "for ever")
    class  0 none, 1.. the known-deviation classes in the order of ClassNames
    pinned/fixed  what the transcription of the pinned / of the repaired code returns
    dev    1 if `pinned` does not meet the reference (a deviation of the pinned code), else 0
@@ -21,8 +22,8 @@ EXTENDS Time, TLC, Json, IOUtils, SequencesExt, FiniteSets
 CONSTANTS Landmarks, Part
 
 ClassNames == <<"dt_sum_eq_max", "dt_wall_sum_eq_1", "wt_int64_overflow", "wt_unsaturated",
-                "wt_past_nonneg_delta">>
-ClassId(c) == IF c = "" THEN 0 ELSE CHOOSE i \in 1 .. 5 : ClassNames[i] = c
+                "wt_past_nonneg_delta", "epoch_mono">>
+ClassId(c) == IF c = "" THEN 0 ELSE CHOOSE i \in 1 .. 6 : ClassNames[i] = c
 ClockId(c) == IF c = "up" THEN 0 ELSE IF c = "mono" THEN 1 ELSE 2
 KindId(k) == IF k = "exact" THEN 0 ELSE IF k = "forever" THEN 1 ELSE 2
 
@@ -58,6 +59,12 @@ RowTimeout(b, n) ==
   <<3, b, 0, 0, 0, n.up, n.mono, n.wall, IF RefElapsed(b, n) THEN 1 ELSE 0,
     ClockId(RefClock(b)), RefWait(b, n), 0, TimeoutM(b, n), TimeoutM(b, n), 0>>
 
+RowEpoch(b, n) ==
+  <<4, b, 0, 0, 0, n.up, n.mono, n.wall, IF RefElapsed(b, n) THEN 1 ELSE 0,
+    ClockId(RefClock(b)), RefWait(b, n), ClassId(ClassEpoch(b)),
+    NanosSinceEpochF(None, b, n), NanosSinceEpochF(AllFixes, b, n),
+    IF RefDeadlineOK(b, NanosSinceEpochF(None, b, n), n) THEN 0 ELSE 1>>
+
 \* The rows as sequences (functions over 1..N are built without the sorting and duplicate
 \* elimination a set of tuples would cost).
 WordSeq == SetToSeq(Words)
@@ -81,9 +88,10 @@ WallRows == [i \in 1 .. NS * NNS * ND * NWN |->
                        DeltaSeq[Ix(i, NWN, ND)], WtNowSeq[Ix(i, 1, NWN)])]
 NullRows == [i \in 1 .. ND * NN |-> RowWall(FALSE, 0, 0, DeltaSeq[Ix(i, NN, ND)], NowSeq[Ix(i, 1, NN)])]
 TimeoutRows == [i \in 1 .. NW * NN |-> RowTimeout(WordSeq[Ix(i, NN, NW)], NowSeq[Ix(i, 1, NN)])]
+EpochRows == [i \in 1 .. NW * NN |-> RowEpoch(WordSeq[Ix(i, NN, NW)], NowSeq[Ix(i, 1, NN)])]
 
 \* Part = "time" | "wall": which rows this run writes (the runs go in parallel)
-Rows == IF Part = "time" THEN TimeRows \o NullRows \o TimeoutRows ELSE WallRows
+Rows == IF Part = "time" THEN TimeRows \o NullRows \o TimeoutRows \o EpochRows ELSE WallRows
 
 VARIABLE
   done
